@@ -10,6 +10,9 @@ import numpy as np
 from gymnasium import spaces
 
 
+IMG = (6, 6, 3)      # H, W, C
+
+
 def _space(kind):
     if kind == "discrete":
         return spaces.Discrete(2)
@@ -25,17 +28,18 @@ def _reward(kind, a, t):
 class CountEnv:
     """plain (non-vectorised) Gymnasium-style environment"""
 
-    def __init__(self, log, ep_len=4, act="discrete", obs_dim=4):
+    def __init__(self, log, ep_len=4, act="discrete", obs_dim=4, image=False):
         self.log = log
         self.L = ep_len
         self.act = act
-        self.observation_space = spaces.Box(-1.0, 1.0, (obs_dim,), np.float32)
+        self.shape = IMG if image else (obs_dim,)        # image: channels LAST (the loop is run with swap_channels=True)
+        self.observation_space = spaces.Box(-1.0, 1.0, self.shape, np.float32)
         self.action_space = _space(act)
         self.t = 0
         self.d = obs_dim
 
     def _obs(self):
-        return np.full((self.d,), 0.125 * (self.t % 8), dtype=np.float32)
+        return np.full(self.shape, 0.125 * (self.t % 8), dtype=np.float32)
 
     def reset(self, seed=None, options=None):
         self.log.append(("reset",))
@@ -59,20 +63,21 @@ class CountEnv:
 class CountVecEnv:
     """vectorised environment (gymnasium.vector style interface, auto-reset), sub-env i has episode length L+i"""
 
-    def __init__(self, log, num_envs, ep_len=4, act="discrete", obs_dim=4):
+    def __init__(self, log, num_envs, ep_len=4, act="discrete", obs_dim=4, image=False):
         self.log = log
         self.num_envs = num_envs
         self.L = ep_len
         self.act = act
         self.d = obs_dim
-        self.single_observation_space = spaces.Box(-1.0, 1.0, (obs_dim,), np.float32)
+        self.shape = IMG if image else (obs_dim,)
+        self.single_observation_space = spaces.Box(-1.0, 1.0, self.shape, np.float32)
         self.single_action_space = _space(act)
-        self.observation_space = spaces.Box(-1.0, 1.0, (num_envs, obs_dim), np.float32)
+        self.observation_space = spaces.Box(-1.0, 1.0, (num_envs,) + self.shape, np.float32)
         self.action_space = self.single_action_space
         self.t = np.zeros(num_envs, dtype=np.int64)
 
     def _obs(self):
-        return np.stack([np.full((self.d,), 0.125 * (t % 8), dtype=np.float32) for t in self.t])
+        return np.stack([np.full(self.shape, 0.125 * (t % 8), dtype=np.float32) for t in self.t])
 
     def reset(self, seed=None, options=None):
         self.log.append(("reset",))
@@ -122,10 +127,16 @@ class CountBanditEnv:
         return self._ctx(), r
 
 
+def _reorder(d, rev):
+    """the dictionaries an environment returns need not be in possible_agents order"""
+    return dict(reversed(list(d.items()))) if rev else d
+
+
 class CountParallelEnv:
     """plain PettingZoo-parallel style environment with agents a_0, a_1 (optionally grouped other_0)"""
 
-    def __init__(self, log, ep_len=4, act="discrete", agent_ids=("a_0", "a_1"), obs_dim=3):
+    def __init__(self, log, ep_len=4, act="discrete", agent_ids=("a_0", "a_1"), obs_dim=3, rev=False):
+        self.rev = rev
         self.log = log
         self.L = ep_len
         self.act = act
@@ -149,7 +160,7 @@ class CountParallelEnv:
         self.log.append(("reset",))
         self.t = 0
         self.agents = list(self.possible_agents)
-        return self._obs(), {a: {} for a in self.possible_agents}
+        return _reorder(self._obs(), self.rev), {a: {} for a in self.possible_agents}
 
     def step(self, actions):
         self.log.append(("step", 1))
@@ -161,14 +172,15 @@ class CountParallelEnv:
         end = self.t >= self.L
         term = {a: bool(end and self.t % 2 == 0) for a in self.possible_agents}
         trunc = {a: bool(end and self.t % 2 == 1) for a in self.possible_agents}
-        return self._obs(), rew, term, trunc, {a: {} for a in self.possible_agents}
+        return _reorder(self._obs(), self.rev), _reorder(rew, self.rev), term, _reorder(trunc, self.rev), {a: {} for a in self.possible_agents}
 
 
 class CountParallelVecEnv:
     """vectorised multi-agent environment (interface of AsyncPettingZooVecEnv: dicts of arrays with leading num_envs,
     auto-reset), sub-env i has episode length L+i"""
 
-    def __init__(self, log, num_envs, ep_len=4, act="discrete", agent_ids=("a_0", "a_1"), obs_dim=3):
+    def __init__(self, log, num_envs, ep_len=4, act="discrete", agent_ids=("a_0", "a_1"), obs_dim=3, rev=False):
+        self.rev = rev
         self.log = log
         self.num_envs = num_envs
         self.L = ep_len
@@ -196,7 +208,7 @@ class CountParallelVecEnv:
     def reset(self, seed=None, options=None):
         self.log.append(("reset",))
         self.t[:] = 0
-        return self._obs(), {a: {} for a in self.possible_agents}
+        return _reorder(self._obs(), self.rev), {a: {} for a in self.possible_agents}
 
     def step(self, actions):
         self.log.append(("step", self.num_envs))
@@ -211,4 +223,4 @@ class CountParallelVecEnv:
         trunc = {a: end & (self.t % 2 == 1) for a in self.possible_agents}
         o = self._obs()
         self.t[end] = 0
-        return o, rew, term, trunc, {a: {} for a in self.possible_agents}
+        return _reorder(o, self.rev), _reorder(rew, self.rev), term, _reorder(trunc, self.rev), {a: {} for a in self.possible_agents}
